@@ -149,8 +149,12 @@ class Ctx:
             "wall_s": round(self.elapsed(), 2),
             "violations": len(self.violations),
         }
-        (VERIF / "evidence").mkdir(exist_ok=True)
-        (VERIF / "evidence" / f"{self.prop}.json").write_text(json.dumps(ev, indent=1, default=str) + "\n")
+        if not getattr(self, "replay", None):
+            # (a replay of one recorded case is not a run of the check: it leaves the check's evidence file alone)
+            (VERIF / "evidence").mkdir(exist_ok=True)
+            (VERIF / "evidence" / f"{self.prop}.json").write_text(json.dumps(ev, indent=1, default=str) + "\n")
+        else:
+            min_distinct = 0
         shutil.rmtree(self.scratch, ignore_errors=True)
         for line in self.known_lines:
             print(line)
